@@ -11,6 +11,7 @@ and follow, the establishment observed at the origin / upstream."""
 import collections
 import concurrent.futures
 import json
+import re
 import socket
 import struct
 import time
@@ -46,6 +47,19 @@ HUP_REFUSALS = {
 S5_REFUSALS = {"s5r1": 1, "s5r2": 2, "s5r4": 4, "s5r8": 8, "s5rff": 255}
 S4_REFUSALS = {"s4r92": 92, "s4r93": 93, "s4r0": 0, "s4r255": 255}
 MORE_FAILING = list(HUP_REFUSALS) + list(S5_REFUSALS) + list(S4_REFUSALS)
+
+
+def global_ipv6():
+    """a non-loopback, non-link-local IPv6 address of this machine, or None"""
+    try:
+        for l in open("/proc/net/if_inet6"):
+            f = l.split()
+            if len(f) >= 6 and f[3] == "00" and f[5] != "lo":
+                h = f[0]
+                return socket.inet_ntop(socket.AF_INET6, bytes.fromhex(h))
+    except OSError:
+        pass
+    return None
 
 
 class World:
@@ -479,7 +493,93 @@ def run(tier, seed, replay=None):
             n_udiff += 1
             rep.fail("C06: HTTP connector, upstream answer %r (%s): the implementation says %s, the model's connect_reply says %s" % (full[:60], what, oi[:20], om[:20]), rp)
         outcomes["upstream-answer:" + oi.split(" ")[0]] += 1
+    # ---- clients that connect over IPv6 from a non-loopback address (::1 is folded into IPv4 by the listeners) ---------
+    v6 = global_ipv6()
+    v6_stats = {"address": v6, "cases": 0}
+    if v6:
+        import struct
+        org6 = e2e.Server(e2e.echo_handler)
+        lp6 = {"http": e2e.free_port(), "socks": e2e.free_port()}
+        closed6 = e2e.free_port()
+        px = e2e.Proxy(driver, [{"name": "http", "bind": "[%s]:%d" % (v6, lp6["http"])}, {"name": "socks", "bind": "[%s]:%d" % (v6, lp6["socks"])}],
+                       [{"name": "direct"}], [{"filter": "request.target.port == 1", "target": "deny"}, {"filter": "request.target.port != 4", "target": "direct"}],
+                       metrics=False, name="c06-v6")
+
+        def v6_request(proto, port_t):
+            ip4 = socket.inet_aton(LOOP)
+            if proto == "http":
+                data, lport = ("CONNECT %s:%d HTTP/1.1\r\n\r\n" % (LOOP, port_t)).encode(), lp6["http"]
+            elif proto == "socks5":
+                data, lport = b"\x05\x01\x00\x05\x01\x00\x01" + ip4 + struct.pack(">H", port_t), lp6["socks"]
+            elif proto == "socks5-bind":
+                data, lport = b"\x05\x01\x00\x05\x02\x00\x01" + ip4 + struct.pack(">H", port_t), lp6["socks"]
+            elif proto == "socks4":
+                data, lport = b"\x04\x01" + struct.pack(">H", port_t) + ip4 + b"u\x00", lp6["socks"]
+            elif proto == "socks4-bind":
+                data, lport = b"\x04\x02" + struct.pack(">H", port_t) + ip4 + b"u\x00", lp6["socks"]
+            else:
+                data, lport = b"\x04\x01" + struct.pack(">H", port_t) + b"\x00\x00\x00\x01u\x00localhost\x00", lp6["socks"]
+            c = socket.socket(socket.AF_INET6, socket.SOCK_STREAM)
+            c.settimeout(5)
+            try:
+                c.bind((v6, 0))
+                c.connect((v6, lport))
+                c.sendall(data)
+                if port_t == org6.port and "bind" not in proto:
+                    time.sleep(0.3)
+                    c.sendall(b"ping")
+                    got = b""
+                    c.settimeout(1.5)
+                    try:
+                        while not got.endswith(b"ping"):
+                            d = c.recv(4096)
+                            if not d:
+                                break
+                            got += d
+                    except socket.timeout:
+                        pass
+                    return got, "open"
+                return e2e.recv_all(c, timeout=4.0)
+            except OSError as e:
+                return b"", "error:%s" % e
+            finally:
+                e2e.close_quiet(c)
+        try:
+            px.start()
+            for proto in ("http", "socks5", "socks4", "socks4a", "socks5-bind", "socks4-bind"):
+                for port_t, why in ((1, "deny rule"), (closed6, "origin refuses"), (4, "no rule"), (org6.port, "reachable")):
+                    if "bind" in proto and why != "reachable":
+                        continue
+                    got, how = v6_request(proto, port_t)
+                    n_eval += 1
+                    v6_stats["cases"] += 1
+                    outcomes["v6:%s:%s" % (proto, why)] += 1
+                    ok_expected = why == "reachable" and "bind" not in proto
+                    if proto == "http":
+                        m_ = re.match(rb"HTTP/1\.1 (\d{3}) [^\r\n]*\r\n((?:[^\r\n]+\r\n)*)\r\n", got)
+                        code = int(m_.group(1)) if m_ else None
+                        cl = re.search(rb"(?i)content-length: *(\d+)", m_.group(2)) if m_ else None
+                        body = got[m_.end():] if m_ else b""
+                        good = (code == 200 and got.endswith(b"ping")) if ok_expected else (code is not None and code >= 400 and cl is not None and int(cl.group(1)) == len(body) and how == "eof")
+                    elif proto.startswith("socks5"):
+                        rp_ = got[2:]
+                        full = len(rp_) >= 10 and rp_[0] == 5 and ((rp_[3] == 1 and len(rp_) >= 10) or (rp_[3] == 4 and len(rp_) >= 22))
+                        good = got[:2] == b"\x05\x00" and full and ((rp_[1] == 0 and got.endswith(b"ping")) if ok_expected else (rp_[1] != 0 and how == "eof" and len(rp_) in (10, 22)))
+                    else:
+                        good = len(got) >= 8 and got[0] == 0 and ((got[1] == 90 and got.endswith(b"ping")) if ok_expected else (got[1] in (91, 92, 93) and len(got) == 8 and how == "eof"))
+                    if not good:
+                        rep.fail("C06: %s client connecting from %s, target %s: received %r (%s) - %s" % (
+                            proto, v6, why, got[:60], how, "expected the tunnel" if ok_expected else "expected one complete failure reply in the client's protocol"),
+                            {"kind": "failing-input", "scenario": {"client_address": v6, "proto": proto, "why": why}, "reply": got.hex()[:400]})
+            if not px.alive():
+                rep.fail("C06: the proxy died during the IPv6 client scenarios", {"kind": "failing-input", "scenario": "alive"})
+        finally:
+            px.stop()
+            org6.close()
+            import shutil
+            shutil.rmtree(px.dir, ignore_errors=True)
     rep.coverage.update({
+        "ipv6_clients": v6_stats,
         "upstream_answer_cases": len(ucases), "upstream_answer_disagreements": n_udiff,
         "evaluations": n_eval,
         "distinct_nontrivial": len(shapes),
